@@ -1097,10 +1097,10 @@ func (g *histGen) idx(forInsert bool) int {
 	case c < 94:
 		return -1
 	case c < 97:
-		if forInsert {
+		if forInsert && r.Chance(30) {
 			return -(top + 2)
 		}
-		return top + r.Range(2, 4)
+		return top + r.Range(2, 4) // beyond top+1; Insert pads with nil there (C10-insert-beyond-top-gap, fixed)
 	default:
 		return -(top + r.Range(2, 300))
 	}
@@ -1171,7 +1171,11 @@ func (g *histGen) stackOp(c int) {
 	case c < 56:
 		i := g.idx(true)
 		g.add("insert", genStackVal(r), strconv.Itoa(i))
-		g.top++
+		if i > g.top+1 {
+			g.top = i // nil-padded up to i-1, the value at i
+		} else {
+			g.top++
+		}
 	case c < 66:
 		i := g.idx(false)
 		g.add("remove", strconv.Itoa(i))
@@ -1478,10 +1482,10 @@ func runC10(run *Run) {
 	if run.Tier == "thorough" {
 		nHist, nCall, nObj, maxOps = 70000, 20000, 30000, 70
 	}
-	run.Rule = "random histories of Push/Pop/Get/SetTop/Insert/Remove/Replace/GetTop (valid, 0, ±top, ±(top+1), far-out indices; nil values inside the list) executed through the public API inside a host function reached through a chain of 0–6 activations (Lua frames with live locals, host frames with own stack values; depth 0 = top level), with the registry at 128 slots + forced growth / tight maximum, each step replayed on the Lean Model of state.go (exact: list, results, whole registry snapshot incl. caller prefix) and on the list Spec; bounded-exhaustive TEST grid (nargs, NRet, produced) in [0,4]x[-1,4]x[0,4] x {Lua, Go callee} x {Call, PCall, CallByParam, CallByParam+Protect} plus failing protected variants; bounded-exhaustive TEST grid of protected calls made inside the activation: depth 0..6 x entry {PCall, CallByParam+Protect} x handler {none, 5 returning kinds, 7 failing kinds: Lua error / table error / fault / call-stack overflow / RaiseError / Go value panic / nested failing protected call} x callee {lua, luatail, go} x outcome {returns, Lua error, fault or Go runtime panic, call-stack overflow, registry overflow, Go value panic}, each followed by gettop + full index sweep + whole-registry snapshot + stack operations + a second protected call (Model = PCall's deferred function by exit path, Spec = list without function/arguments/partial results); host frames of the chain with returning/raising/panicking handlers and activations that fail; Get/Replace/To* at pseudo-indices (registry, environment, globals, upvalues within/beyond a SetFuncs closure's 0..3 upvalues) on the Model of those branches and the manual's cells Spec, the ten To* conversions at valid/negative/beyond-top/pseudo indices for values of every type vs the Lua definitions on the same value; GetFEnv/SetFEnv/ForEach/Register/SetFuncs vs Lua twins; object-level API vs the same operands evaluated by a Lua chunk in the same state (Impl vs Impl, handler logs compared); composed call contract: host callees called directly / through __call performing a history of stack operations and returning any count up to their top, through every call entry (random + TEST grid nargs x NRet x kind x entry x count); Get / Replace at extreme indices (around the pseudo-index range, 2^40, 2^62, MaxInt64-300..MaxInt64, MinInt64) on the Model with Go's wrapping int arithmetic; ToStringMeta / ObjLen / Concat with host-function handlers performing stack operations (Model: Push/Push/Call(n,1)/reg.Pop), Concat() without operand, __concat returning every kind of value; protected calls failing inside 0..3 nested host activations x handler none / returning / failing x both protected entries (Model: frame entries, pushes, raiseError's push, handler frame, PCall's deferred function); object-level entries against an implementation-independent oracle: operands described to the Lean side (MetaModel + manual Spec) which computes expected handler calls and results — comparison handlers different / same / one-sided / shared metatable / __le missing / mixed types in both operand orders, __metatable in {absent, false, true, 0, \"\", \"locked\", table, userdata, function} on objects of every type, __index / __newindex chains through GetTable / GetField / GetGlobal / SetTable / SetField / SetGlobal, Concat / ObjLen / ToStringMeta handler placements, L.Next traversals vs the stored contents (all bounded-exhaustive TESTS); distinct = distinct op-kind skeletons"
+	run.Rule = "random histories of Push/Pop/Get/SetTop/Insert/Remove/Replace/GetTop (valid, 0, ±top, ±(top+1), far-out indices; nil values inside the list) executed through the public API inside a host function reached through a chain of 0–6 activations (Lua frames with live locals, host frames with own stack values; depth 0 = top level), with the registry at 128 slots + forced growth / tight maximum, each step replayed on the Lean Model of state.go (exact: list, results, whole registry snapshot incl. caller prefix) and on the list Spec; bounded-exhaustive TEST grid (nargs, NRet, produced) in [0,4]x[-1,4]x[0,4] x {Lua, Go callee} x {Call, PCall, CallByParam, CallByParam+Protect} plus failing protected variants; bounded-exhaustive TEST grid of protected calls made inside the activation: depth 0..6 x entry {PCall, CallByParam+Protect} x handler {none, 5 returning kinds, 7 failing kinds: Lua error / table error / fault / call-stack overflow / RaiseError / Go value panic / nested failing protected call} x callee {lua, luatail, go} x outcome {returns, Lua error, fault or Go runtime panic, call-stack overflow, registry overflow, Go value panic}, each followed by gettop + full index sweep + whole-registry snapshot + stack operations + a second protected call (Model = PCall's deferred function by exit path, Spec = list without function/arguments/partial results); host frames of the chain with returning/raising/panicking handlers and activations that fail; Get/Replace/To* at pseudo-indices (registry, environment, globals, upvalues within/beyond a SetFuncs closure's 0..3 upvalues) on the Model of those branches and the manual's cells Spec, the ten To* conversions at valid/negative/beyond-top/pseudo indices for values of every type vs the Lua definitions on the same value; GetFEnv/SetFEnv/ForEach/Register/SetFuncs vs Lua twins; object-level API vs the same operands evaluated by a Lua chunk in the same state (Impl vs Impl, handler logs compared); composed call contract: host callees called directly / through __call performing a history of stack operations and returning any count up to their top, through every call entry (random + TEST grid nargs x NRet x kind x entry x count); Get / Replace at extreme indices (around the pseudo-index range, 2^40, 2^62, MaxInt64-300..MaxInt64 incl. the ones where base+idx-1 does not fit an int, MinInt64); ToStringMeta / ObjLen / Concat with host-function handlers performing stack operations (Model: Push/Push/Call(n,1)/reg.Pop), Concat() without operand, __concat returning every kind of value; protected calls failing inside 0..3 nested host activations x handler none / returning / failing x both protected entries (Model: frame entries, pushes, raiseError's push, handler frame, PCall's deferred function); object-level entries against an implementation-independent oracle: operands described to the Lean side (MetaModel + manual Spec) which computes expected handler calls and results — comparison handlers different / same / one-sided / shared metatable / __le missing / mixed types in both operand orders, __metatable in {absent, false, true, 0, \"\", \"locked\", table, userdata, function} on objects of every type, __index / __newindex chains through GetTable / GetField / GetGlobal / SetTable / SetField / SetGlobal, Concat / ObjLen / ToStringMeta handler placements, L.Next traversals vs the stored contents (all bounded-exhaustive TESTS); distinct = distinct op-kind skeletons"
 	run.Assume = []string{"the activation's entry state is read through the verif hooks VerifSnapshot / VerifRegistryValues (read-only)",
 		"host callee bodies are replayed on the Model as the history of stack operations they perform + the count they return (callg / hcall / pfailat) or as 'pushes junk then its results' (call); Lua callees (OP_RETURN) are tied only through the observed list after the call",
-		"dead slots above top are re-synchronised from the real registry after callee code ran (they are semantically dead; only Insert beyond top+1 can expose them, which is outside the property's index domain)",
+		"dead slots above top are re-synchronised from the real registry after callee code ran (they are semantically dead: nothing reads them; Insert beyond top+1 sets the skipped slots to nil)",
 		"object-level entries: expected handler calls and results are computed by the Lean side (MetaModel = dispatch code, MetaSpec = manual) from a description of the operands (objspec family, request language of the C04M engine); handlers are opaque (log entry + return values); formatting of non-integral numbers is compared in Go only"}
 	root := NewRng(uint64(run.Seed))
 	var cases []Case
